@@ -501,8 +501,6 @@ theorem rtl_bond_projects {m : Machine} (hm : MachineWF m) (hho : HandshakeOnly 
     cases hs.atIO <;> cases rtlAtR2owa aq progq sq.pc o <;> cases hs.waitsm <;>
       cases (!hs.cs.isEmpty && hs.cs.all (·.recv)) <;> simp
   · rw [Hs.Rtl.step_waitsm, esq', eaq, eprq, p2, hschp]
-    cases hs.atIO <;> cases rtlAtR2owa aq progq sq.pc o <;> cases hs.waitsm <;>
-      cases (!hs.cs.isEmpty && hs.cs.all (·.recv)) <;> simp
   · rw [Hs.Rtl.step_atIO, esq', eaq, eprq, hschp]
     intro hh
     apply p3
@@ -530,7 +528,6 @@ theorem rtl_bond_projects {m : Machine} (hm : MachineWF m) (hho : HandshakeOnly 
     rw [esc] at hr0
     rw [eac, eprc, esc] at ha0
     obtain ⟨c1, c2⟩ := rtl_cons_step ac progc b.ext hk sc (portsIn m.topo h e b.res ac) (hs.cs.getD n {}) hs.auxo hr0 ha0 hnoi
-    simp only at c1 c2
     rw [hV] at c1 c2
     have hget := Hs.Rtl.step_cs_get hs (rtlBondSched m j q o h) n hn
     have hw : Hs.wantOf (rtlBondSched m j q o h) hs.cs.length n = rtlAtI2rw ac progc sc.pc b.ext := by
@@ -542,5 +539,67 @@ theorem rtl_bond_projects {m : Machine} (hm : MachineWF m) (hho : HandshakeOnly 
       rw [List.getD_eq_getElem?_getD, List.getElem?_eq_getElem hn]; rfl
     rw [getD_some hget, hw, hcn, esc', eac, eprc]
     exact ⟨c1, c2⟩
+
+/-! ### runs -/
+
+/-- the hardware composition driven by an arbitrary sequence of external stimuli (one per clock) -/
+def runHw (m : Machine) : List EnvIn → HwState → HwState
+  | [], h => h
+  | e :: es, h => runHw m es (rtlCycle m h e)
+
+theorem hwInit_ok (m : Machine) : HwOk m (hwInit m) := by
+  constructor
+  · simp [hwInit]
+  · intro p s a prog hs ha _
+    simp only [hwInit, List.getElem?_map, ha, Option.map_some, Option.some.injEq] at hs
+    subst hs
+    exact winv_reset a prog
+
+theorem hwInit_rel (m : Machine) (j q o : Nat) :
+    RtlBondRel m j q o (hwInit m) (Hs.Rtl.init (Bond.consumers m.topo j).length) := by
+  have hz : ∀ (c k : Nat), (hprocOf (hwInit m) c).oVal.getD k false = false ∧
+      (hprocOf (hwInit m) c).iRecv.getD k false = false ∧ (hprocOf (hwInit m) c).waitsm = false := by
+    intro c k
+    simp only [hprocOf, hwInit, List.getD_eq_getElem?_getD, List.getElem?_map]
+    cases m.archs[c]? with
+    | none => simp
+    | some a =>
+      simp only [Option.map_some, Option.getD_some, Rtl.reset, List.getElem?_replicate]
+      refine ⟨?_, ?_, trivial⟩ <;> split <;> rfl
+  refine ⟨?_, ?_, fun h => by simp [Hs.Rtl.init] at h, by simp [Hs.Rtl.init], ?_⟩
+  · show false = _; rw [(hz q o).1]
+  · show false = _; rw [(hz q o).2.2]; rfl
+  · intro n b hb
+    have hn : n < (Bond.consumers m.topo j).length := (List.getElem?_eq_some_iff.mp hb).1
+    have : (Hs.Rtl.init (Bond.consumers m.topo j).length).cs.getD n {} = {} := by
+      simp [Hs.Rtl.init, List.getD_eq_getElem?_getD, List.getElem?_replicate, hn]
+    rw [this]
+    refine ⟨?_, fun h => by cases h⟩
+    show false = _; rw [(hz b.res b.ext).2.1]
+
+/-- **every run of the hardware composition, under any external stimulus, projects bond by bond
+    onto a run of C04's hardware handshake model** -/
+theorem rtl_bond_run_projects {m : Machine} (hm : MachineWF m) (hho : HandshakeOnly m) {j q o : Nat}
+    (hb : RtlProcBond m j q o) (es : List EnvIn) (h : HwState) (hs : Hs.Rtl.St) (hok : HwOk m h)
+    (hrel : RtlBondRel m j q o h hs) :
+    ∃ schs, schs.length = es.length ∧ HwOk m (runHw m es h) ∧ RtlBondRel m j q o (runHw m es h) (Hs.Rtl.run hs schs) := by
+  induction es generalizing h hs with
+  | nil => exact ⟨[], rfl, hok, hrel⟩
+  | cons e es ih =>
+    have hrel1 := rtl_bond_projects hm hho hb e hok hrel
+    obtain ⟨schs, hl, hok', hrel'⟩ := ih _ _ (rtlCycle_ok e hm hok) hrel1
+    exact ⟨rtlBondSched m j q o h :: schs, by simp [hl], hok', by simpa [Hs.Rtl.run, runHw] using hrel'⟩
+
+theorem runRtl_is_runHw (m : Machine) (spec : EnvSpec) (n : Nat) (x : HwState × EnvSt × Bool) :
+    ∃ es, es.length = n ∧ (runRtl m spec n x).1 = runHw m es x.1 := by
+  induction n generalizing x with
+  | zero => exact ⟨[], rfl, rfl⟩
+  | succ n ih =>
+    obtain ⟨h, env, hz⟩ := x
+    simp only [runRtl]
+    obtain ⟨es, hl, hr⟩ := ih (rtlCycle m h (envDrive (envStep spec env (observeHw m.topo h (envDrive env)))),
+      envStep spec env (observeHw m.topo h (envDrive env)),
+      hz || bmRtlHazard m h (envDrive (envStep spec env (observeHw m.topo h (envDrive env)))))
+    exact ⟨envDrive (envStep spec env (observeHw m.topo h (envDrive env))) :: es, by simp [hl], by rw [hr]; rfl⟩
 
 end BMV.Bm
